@@ -27,7 +27,7 @@ MANIFEST = {
              'iteration; index bookkeeping (disp_auth_idx_entry etc.) is taken as the code computes it.'),
 }
 EXPLANATION = 'Gate formulas of TrainDisp::advance as named-sub-term specifications of the SVN terms of one loop iteration.'
-RULES = ['C04-0.start', 'C04-1.direction', 'C04-2.lockout', 'C04-3.exit', 'C04-4.entry', 'C04-5.offset', 'C04-6.clear', 'C04-7.occupancy', 'C04-8.index', 'C04-9.blocked', 'C04-10.sentinel']
+RULES = ['C04-0.start', 'C04-1.direction', 'C04-2.lockout', 'C04-3.exit', 'C04-4.entry', 'C04-5.offset', 'C04-6.clear', 'C04-7.occupancy', 'C04-8.index', 'C04-9.blocked', 'C04-10.sentinel', 'C04-11.cursor']
 ASSUMPTIONS = ['index bookkeeping of dispatch nodes and authorities is as computed by the code (not decided)']
 
 FID = 'TrainDisp::advance'
@@ -468,6 +468,12 @@ def occupancy(ctx, b, an):
     index_provenance(ctx, [(b, an)] + ([(ub, uan)] if ub is not None else []) + [(rb, ran)])
     links_blocked_rule(ctx)
     sentinels(ctx, b, an)
+    # a train that the deadlock check skips is never re-routed around the trains that move later: the skip cursor may pass finished
+    # trains only (clause of C05-6, shared)
+    if not getattr(ctx, '_no_c05_share', False):
+        from .common import RuleProxy
+        from . import C05
+        C05.cursor(RuleProxy(ctx, {'C05-6.cursor': 'C04-11.cursor'}))
     for fld in sorted(adv & rew):
         vals = {show(val)[:20] for bb, path, val, span in ran.stores_log if path[0] == ('obj', 2) and path[-1] == ('f', fld)}
         ctx.check(vals <= {'INF', '0'}, R, 'TrainDisp::rewind|' + fld, 'rewind resets %s to its "not yet" value' % fld, 'reset values %s' % sorted(vals), ctx.where(rb))
